@@ -403,6 +403,26 @@ theorem eq_ne_top_complementary (itemS itemA : List Nat) (s a : Arr ICell) :
       · simp [neTop, hc, Arr.map2, hb]
       · intro i; exact eq_ne_complementary _ _
 
+/-- `tvl_eq` / `tvl_ne` of operands that cannot be compared element by element (different item shapes, shapes that do not
+    broadcast) give ONE answer: unequal, and unknown exactly when one of the operands is entirely masked -/
+theorem tvl_cmp_incompatible (isEq : Bool) (itemS itemA : List Nat) (allS allA : Bool) (s a : Arr ICell)
+    (h : itemS ≠ itemA ∨ bcast s.shape a.shape = none) :
+    tvlCmpTop isEq itemS itemA allS allA s a = .whole ⟨!isEq, allS || allA⟩ := by
+  have hc : compatCode itemS itemA s.shape a.shape = false := by
+    unfold compatCode
+    rcases h with h | h <;> simp [h]
+  simp [tvlCmpTop, hc, tvlWholeCode]
+
+/-- compatible operands: one Kleene answer per element of the broadcast shape -/
+theorem tvl_cmp_compatible (isEq : Bool) (item : List Nat) (allS allA : Bool) (s a : Arr ICell) (out : Shape)
+    (hb : bcast s.shape a.shape = some out) :
+    ∃ r, tvlCmpTop isEq item item allS allA s a = .elems r ∧ r.shape = out ∧
+      ∀ i, r.get i = (if isEq then tvlEqCode else tvlNeCode) (s.get (bidx s.shape i)) (a.get (bidx a.shape i)) := by
+  have hc : compatCode item item s.shape a.shape = true := by simp [compatCode, hb]
+  refine ⟨⟨out, fun i => (if isEq then tvlEqCode else tvlNeCode) (s.get (bidx s.shape i)) (a.get (bidx a.shape i))⟩,
+          ?_, rfl, fun _ => rfl⟩
+  simp [tvlCmpTop, hc, Arr.map2, hb]
+
 /-! #### non-vacuity -/
 example : (tvlAndCode false false ⟨true, true⟩ ⟨true, false⟩).t3 = .m := by decide
 example : (tvlAnyCode .array [⟨true, true⟩, ⟨false, false⟩]).t3 = .m := by decide
